@@ -24,6 +24,9 @@ def draw_funds(rng, rich=True):
         return None
     if c < 0.55 and not rich:
         return [{"denom": "uatom", "amount": str(10**30)}]  # more than anybody owns
+    if c < 0.6:
+        # a coin of amount zero next to a real one: the handler sees the list as given
+        return [{"denom": "uatom", "amount": str(rng.randrange(1, 500))}, {"denom": "ujuno", "amount": "0"}][::rng.choice([1, -1])]
     if c < 0.7:
         # the same denom listed twice, or denoms out of order: the handler must see the coins as given
         return [{"denom": d, "amount": str(rng.randrange(1, 500))} for d in rng.choice([["uatom", "uatom"], ["ujuno", "uatom"], ["uatom", "ujuno", "uatom"]])]
@@ -158,7 +161,7 @@ class History:
         ct = canon_args(self.canon, prog, inst, texts)
         doc = doc_text(inst, ct)
         code = rng.choice(self.codes) if rng.random() < 0.95 else 9999
-        label = rng.choice([None, "lbl" + str(step), "Contract", "a b c"])
+        label = rng.choice([None, "lbl" + str(step), "Contract", "a b c", " lead" + str(step), "trail   ", "\tboth\n", "Ü" + str(step)])
         admin = rng.choice([None, self.accounts[3], self.accounts[3], self.accounts[0]])
         funds = draw_funds(rng, rich=rng.random() < 0.9)
         salt = rng.choice([None, None, None, base64.b64encode(bytes(rng.randrange(256) for _ in range(rng.choice([0, 1, 8, 32, 65])))).decode()])
